@@ -54,7 +54,7 @@ type model struct {
 	Ents  []ent
 }
 
-func (m *model) empty() bool   { return len(m.Ents) == 0 }
+func (m *model) empty() bool { return len(m.Ents) == 0 }
 func (m *model) first() uint64 {
 	if m.empty() {
 		return 0
